@@ -138,6 +138,7 @@ func genC04(c *Ctx) *Plan {
 			}
 		}
 	}
+	p.Cfg.AliveDel = r.chance(0.5) // an accepting AliveDelegate: a preemption point if it is ever called without the node lock
 	return p
 }
 
